@@ -56,6 +56,28 @@ def rule_budget(report, prog):
         cl = any(isinstance(i, ast.If) and norm(i.test) == 'fsc > self.clf.max_send_data_size' and
                  any(norm(s) == 'fsc = self.clf.max_send_data_size' for s in i.body) for i in walk_no_nested(g.node))
         report.check(cl, 'C12-R1', key(q, 'FSC clamped to what the device can send'), g.loc(), 'FSC is not limited to the device frame size')
+        # the card's frame size is what the FSCI table gives: afterwards fsc is only ever lowered (assigned under a `fsc > X` test
+        # to X, or min(fsc, ...)); nothing else the card sends may raise it
+        tabn = [n for n, b in find(g.node, 'fsc = $T[fsci]')]
+        raised = []
+        for st in walk_no_nested(g.node):
+            tgts = []
+            if isinstance(st, ast.Assign):
+                tgts = [t for t in st.targets if norm(t) == 'fsc']
+            elif isinstance(st, ast.AugAssign) and norm(st.target) == 'fsc':
+                tgts = [st.target]
+            if not tgts or st in tabn:
+                continue
+            par = getattr(st, '_parent', None)
+            clamp = isinstance(st, ast.Assign) and isinstance(par, ast.If) and st in par.body and norm(par.test) in (
+                'fsc > ' + norm(st.value), norm(st.value) + ' < fsc')
+            mn = isinstance(st, ast.Assign) and isinstance(st.value, ast.Call) and norm(st.value.func) == 'min' and \
+                any(norm(a) == 'fsc' for a in st.value.args)
+            if not (clamp or mn):
+                raised.append(st)
+        report.check(not raised, 'C12-R1', key(q, 'FSC from the FSCI table is only ever lowered'), g.loc(raised[0]) if raised else g.loc(),
+                     '`%s` can make the frame size larger than the FSC the card announced: blocks the card cannot buffer are sent'
+                     % (norm(raised[0]) if raised else ''))
         report.check(bool(find(g.node, 'self._dep = IsoDepInitiator(clf, fsc, fwt)')), 'C12-R1', key(q, 'ISO-DEP created with the negotiated FSC/FWT'),
                      g.loc(), 'IsoDepInitiator construction changed')
         # every constant bound to fsci is a valid table index, and a default used when the ATS omits T0 / TB(1) is the ISO/IEC 14443-4
@@ -102,6 +124,23 @@ def rule_block_number(report, prog):
                              f.loc(bad[0].ast) if bad else f.loc(node.ast),
                              'a block received by `%s` is accepted without its own block number check (the check ran on the previous block)'
                              % (norm(bad[0].ast) if bad else ''))
+    # ... and every block that passed the check is answered by a toggle before the next block is sent or exchange() returns
+    # (ISO/IEC 14443-4 rule B): otherwise the next command carries the number of the block the card has already seen, and the
+    # card's retransmission of that old block is taken for the new answer
+    toggles = [node for node in cfg.nodes if node.kind == 'stmt' and isinstance(node.ast, ast.Assign) and norm(node.ast.targets[0]) == 'self.pni']
+    sends = [node for node in cfg.nodes if node.ast is not None and node.kind in ('stmt', 'test') and not isinstance(node.ast, (ast.FunctionDef, ast.ClassDef))
+             and any(isinstance(c, ast.Call) and norm(c.func) == 'self.clf.exchange' for c in walk_no_nested(node.ast))]
+    for t, lab in edges:
+        starts = [nxt for nxt, l2 in t.succ if l2 == 'false']
+        bad = None
+        for s0 in starts:
+            reach = cfg.reachable(s0, avoid_nodes=toggles, labels_excluded=('exc',)) if s0 not in toggles else set()
+            if cfg.exit in reach:
+                bad = 'exchange() returns'
+            elif any(x in reach for x in sends):
+                bad = 'the next block is sent'
+        report.check(bad is None, 'C12-R2', key(f.qname, 'every accepted block toggles the block number before the next transmission / return', t.ast),
+                     f.loc(t.ast), 'after a block with the expected number was accepted %s without toggling the block number' % bad)
     for t, lab in edges:
         okk = isinstance(t.owner, ast.If) and any(isinstance(x, ast.Raise) and 'PROTOCOL_ERROR' in norm(x) for x in t.owner.body)
         report.check(okk, 'C12-R2', key(f.qname, 'wrong block number raises PROTOCOL_ERROR', t.ast), f.loc(t.ast),
@@ -307,6 +346,22 @@ triage.add('C12', 'C12-R5', key(ISO + '.exchange', 'data is long enough for', 'd
 
 T4 = 'nfc.tag.tt4'
 MUTANTS = [
+    ('fsc-raised-after-table', T4, """            log.warning("FWI with RFU value in SENSB_RES")
+            fwti = 4
+
+        fsc = (16, 24, 32, 40, 48, 64, 96, 128, 256)[fsci]
+""", """            log.warning("FWI with RFU value in SENSB_RES")
+            fwti = 4
+
+        fsc = (16, 24, 32, 40, 48, 64, 96, 128, 256)[fsci]
+        fsc = max(fsc, 64)
+""", 'C12-R1'),
+    ('last-chained-block-not-toggled', T4, """            response = response + data[1:]
+            self.pni = (self.pni + 1) % 2
+""", """            response = response + data[1:]
+            if data[0] & 0b00010000:
+                self.pni = (self.pni + 1) % 2
+""", 'C12-R2'),
     ('miu-fsc-minus-2', T4, "self.miu = fsc - 3  # account for 1 byte PCB and 2 byte EDC", "self.miu = fsc - 2", 'C12-R1'),
     ('slice-wider-than-stride', T4, """            pfb = pack('B', (0x02, 0x12)[more] | self.pni)
             data = pfb + command[offset:offset+self.miu]""", """            pfb = pack('B', (0x02, 0x12)[more] | self.pni)
